@@ -17,6 +17,37 @@ import (
 	"strings"
 )
 
+// onlyLoop checks that a function consists of the declaration of its result list, one range loop and
+// the return of that list (log calls aside): nothing before or after the loop can change what the
+// translated loop body decides.
+func onlyLoop(fd *ast.FuncDecl, who string) {
+	for _, st := range fd.Body.List {
+		switch v := st.(type) {
+		case *ast.RangeStmt:
+			continue
+		case *ast.DeclStmt:
+			if strings.HasSuffix(src(v), " jmessages") {
+				continue
+			}
+		case *ast.AssignStmt:
+			if v.Tok == token.DEFINE && len(v.Rhs) == 1 && strings.HasPrefix(src(v.Rhs[0]), "make(jmessages") {
+				continue
+			}
+		case *ast.ReturnStmt:
+			if len(v.Results) == 1 {
+				if _, ok := v.Results[0].(*ast.Ident); ok {
+					continue
+				}
+			}
+		case *ast.ExprStmt:
+			if call, ok := v.X.(*ast.CallExpr); ok && strings.HasSuffix(src(call.Fun), ".log") {
+				continue
+			}
+		}
+		fail("%s: statement outside the loop: %q", who, src(st))
+	}
+}
+
 // switchToIf turns a tagless switch into the equivalent if / else-if chain.
 func switchToIf(sw *ast.SwitchStmt) ast.Stmt {
 	var def *ast.BlockStmt
@@ -279,6 +310,7 @@ func emitResponses(fs *strings.Builder, p *pkg, c *consts, funcs map[string]stri
 		fail("tasks.responses not found")
 	}
 	who := file + ":responses"
+	onlyLoop(fd, who)
 	var loop *ast.RangeStmt
 	for _, st := range fd.Body.List {
 		if rs, ok := st.(*ast.RangeStmt); ok {
@@ -528,4 +560,174 @@ func emitResponses(fs *strings.Builder, p *pkg, c *consts, funcs map[string]stri
 	body := walk(loop.Body.List, e0, "  ", nil)
 	fmt.Fprintf(fs, "/-- %s: the body of the loop of `tasks.responses` as a whole: the reply one task produces (`none` = no reply). `errCode` is `ErrorCode(task.err)`, `isJ` = the error is an `*Error`, `dataLen` / `dataValid` describe its data -/\n"+
 		"def responseFor (idNil : Bool) (id : List UInt8) (mNil errNil isJ : Bool) (dataLen : Int) (dataValid : Bool) (errCode : Int) : Option RespOut :=\n  %s\n\n", file, body)
+}
+
+
+// emitFilter translates the body of the loop of Server.filterBatchLocked: what the reader does with
+// one member of an inbound record before it is queued - kept for the dispatcher, handed to the
+// pending callback registered under its (normalised) id (which is removed from the table first), or
+// dropped.
+func emitFilter(fs *strings.Builder, p *pkg, c *consts, funcs map[string]string) {
+	fd, file := findFunc(p, "Server", "filterBatchLocked")
+	if fd == nil {
+		fail("Server.filterBatchLocked not found")
+	}
+	who := file + ":filterBatchLocked"
+	onlyLoop(fd, who)
+	var loop *ast.RangeStmt
+	for _, st := range fd.Body.List {
+		if rs, ok := st.(*ast.RangeStmt); ok {
+			loop = rs
+		}
+	}
+	if loop == nil || loop.Value == nil {
+		fail("%s: loop over the members not found", who)
+	}
+	mv := src(loop.Value)
+	keepVar := ""
+	for _, st := range fd.Body.List {
+		if as, ok := st.(*ast.AssignStmt); ok && as.Tok == token.DEFINE && len(as.Lhs) == 1 && strings.HasPrefix(src(as.Rhs[0]), "make(jmessages") {
+			keepVar = src(as.Lhs[0])
+		}
+		if ds, ok := st.(*ast.DeclStmt); ok && strings.HasSuffix(src(ds), " jmessages") {
+			keepVar = strings.TrimSuffix(strings.TrimPrefix(src(ds), "var "), " jmessages")
+		}
+	}
+	if keepVar == "" {
+		fail("%s: the list of kept members was not found", who)
+	}
+	type env struct {
+		atoms   map[string]string
+		key     string // Lean expression of the key the callback was looked up under
+		pv      string // local holding the pending callback
+		deleted string
+		act     string
+	}
+	clone := func(e env) env {
+		a := map[string]string{}
+		for k, x := range e.atoms {
+			a[k] = x
+		}
+		e.atoms = a
+		return e
+	}
+	e0 := env{atoms: map[string]string{
+		mv + ".isRequestOrNotification()": "isReq", mv + ".ID": "rawID", "s.allowP": "allowP",
+		mv + ".M": "m", mv + ".E": "e", mv + ".R": "r", `""`: "([] : List UInt8)",
+	}, deleted: "false"}
+	finish := func(e env) string {
+		if e.act == "" {
+			return "FilterAct.drop"
+		}
+		return e.act
+	}
+	var walk func(list []ast.Stmt, e env, ind string) string
+	walk = func(list []ast.Stmt, e env, ind string) string {
+		if len(list) == 0 {
+			return finish(e)
+		}
+		st, rest := list[0], list[1:]
+		t := &tr{atoms: e.atoms, c: c, funcs: funcs, who: who}
+		switch v := st.(type) {
+		case *ast.BranchStmt:
+			if v.Tok == token.CONTINUE {
+				return finish(e)
+			}
+		case *ast.SwitchStmt:
+			if v.Tag == nil && v.Init == nil {
+				if conv := switchToIf(v); conv != nil {
+					return walk(append([]ast.Stmt{conv}, rest...), e, ind)
+				}
+			}
+		case *ast.ExprStmt:
+			call, ok := v.X.(*ast.CallExpr)
+			if !ok {
+				break
+			}
+			switch {
+			case src(call.Fun) == "s.log":
+				return walk(rest, e, ind)
+			case src(call.Fun) == "delete" && len(call.Args) == 2 && src(call.Args[0]) == "s.call":
+				if e.key == "" || t.expr(call.Args[1]) != e.key {
+					fail("%s: deletes a callback entry other than the one it looked up", who)
+				}
+				ne := clone(e)
+				ne.deleted = "true"
+				return walk(rest, ne, ind)
+			}
+		case *ast.SendStmt:
+			if e.pv != "" && src(v.Chan) == e.pv+".ch" && src(v.Value) == mv {
+				ne := clone(e)
+				ne.act = "FilterAct.deliver " + e.key + " " + e.deleted
+				return walk(rest, ne, ind)
+			}
+		case *ast.AssignStmt:
+			if len(v.Lhs) == 1 && len(v.Rhs) == 1 {
+				lhs, rhs := src(v.Lhs[0]), src(v.Rhs[0])
+				if lhs == keepVar && rhs == "append("+keepVar+", "+mv+")" {
+					ne := clone(e)
+					ne.act = "FilterAct.keep"
+					return walk(rest, ne, ind)
+				}
+				if ix, ok := v.Rhs[0].(*ast.IndexExpr); ok && src(ix.X) == "s.call" && v.Tok == token.DEFINE {
+					ne := clone(e)
+					ne.pv, ne.key = lhs, t.expr(ix.Index)
+					ne.atoms[lhs+" == nil"] = "(!(callHas " + ne.key + "))"
+					ne.atoms[lhs+" != nil"] = "(callHas " + ne.key + ")"
+					return walk(rest, ne, ind)
+				}
+				if _, isIdent := v.Lhs[0].(*ast.Ident); isIdent && v.Tok == token.DEFINE {
+					ne := clone(e)
+					ne.atoms["s.call["+lhs+"] != nil"] = "(callHas " + lhs + ")"
+					ne.atoms["s.call["+lhs+"] == nil"] = "(!(callHas " + lhs + "))"
+					return "let " + lhs + " := " + t.expr(v.Rhs[0]) + "\n" + ind + walk(rest, ne, ind)
+				}
+			}
+			if len(v.Lhs) == 2 && len(v.Rhs) == 1 && v.Tok == token.DEFINE { // rsp, ok := s.call[id]
+				if ix, ok := v.Rhs[0].(*ast.IndexExpr); ok && src(ix.X) == "s.call" {
+					ne := clone(e)
+					ne.pv, ne.key = src(v.Lhs[0]), t.expr(ix.Index)
+					ne.atoms[src(v.Lhs[1])] = "(callHas " + ne.key + ")"
+					ne.atoms[ne.pv+" != nil"] = "(callHas " + ne.key + ")"
+					ne.atoms[ne.pv+" == nil"] = "(!(callHas " + ne.key + "))"
+					return walk(rest, ne, ind)
+				}
+			}
+		case *ast.IfStmt:
+			te := clone(e)
+			if v.Init != nil {
+				as, ok := v.Init.(*ast.AssignStmt)
+				if !ok || as.Tok != token.DEFINE || len(as.Rhs) != 1 {
+					fail("%s: unsupported init %q", who, src(v.Init))
+				}
+				ix, ok := as.Rhs[0].(*ast.IndexExpr)
+				if !ok || src(ix.X) != "s.call" {
+					fail("%s: unsupported init %q", who, src(v.Init))
+				}
+				te.pv, te.key = src(as.Lhs[0]), t.expr(ix.Index)
+				te.atoms[te.pv+" != nil"] = "(callHas " + te.key + ")"
+				te.atoms[te.pv+" == nil"] = "(!(callHas " + te.key + "))"
+				if len(as.Lhs) == 2 {
+					te.atoms[src(as.Lhs[1])] = "(callHas " + te.key + ")"
+				}
+			}
+			cond := (&tr{atoms: te.atoms, c: c, funcs: funcs, who: who}).expr(v.Cond)
+			thenPart := walk(append(append([]ast.Stmt{}, v.Body.List...), rest...), te, ind+"  ")
+			var elsePart string
+			switch el := v.Else.(type) {
+			case nil:
+				elsePart = walk(rest, clone(e), ind+"  ")
+			case *ast.BlockStmt:
+				elsePart = walk(append(append([]ast.Stmt{}, el.List...), rest...), clone(e), ind+"  ")
+			case *ast.IfStmt:
+				elsePart = walk(append([]ast.Stmt{el}, rest...), clone(e), ind+"  ")
+			}
+			return "if " + cond + " then\n" + ind + "  " + thenPart + "\n" + ind + "else\n" + ind + "  " + elsePart
+		}
+		fail("%s: unsupported statement %q", who, src(st))
+		return ""
+	}
+	body := walk(loop.Body.List, e0, "  ")
+	fmt.Fprintf(fs, "/-- %s: the body of the loop of `Server.filterBatchLocked` as a whole: what the reader does with one member. `callHas k` = a callback is pending under key `k`; `deliver k deleted` = the member is handed to that callback after its entry was (`deleted`) removed -/\n"+
+		"def filterAct (isReq : Bool) (rawID m : List UInt8) (e : Option Unit) (r : List UInt8) (allowP : Bool) (callHas : List UInt8 → Bool) : FilterAct :=\n  %s\n\n", file, body)
 }
